@@ -92,19 +92,21 @@ func (p *Path) String() string {
 }
 
 type SymConfig struct {
-	Prog       *Program
-	MaxDepth   int
-	MaxPaths   int
-	Collapse   bool                            // collapse effect-free diamonds (logging)
-	CollapsePure bool                          // also collapse effect-free diamonds that only compute values (join phis become opaque)
-	NoInline   map[*ssa.Function]bool          // never inline these
-	OnlyInline map[*ssa.Function]bool          // if non-nil, inline only these
-	Start      *ssa.BasicBlock                 // region entry (nil = function entry)
-	Stop       map[*ssa.BasicBlock]bool        // region exits
-	KeepCalls  bool                            // record inert (logging) calls as effects too
-	ParamTerms map[*ssa.Parameter]*Term        // override root parameter terms
-	FreeTerms  map[*ssa.FreeVar]*Term          // override root free variable terms
-	OnBlock    func(b *ssa.BasicBlock, depth int) // coverage hook
+	Prog         *Program
+	MaxDepth     int
+	MaxPaths     int
+	Collapse     bool                               // collapse effect-free diamonds (logging)
+	CollapsePure bool                               // also collapse effect-free diamonds that only compute values (join phis become opaque)
+	NoInline     map[*ssa.Function]bool             // never inline these
+	OnlyInline   map[*ssa.Function]bool             // if non-nil, inline only these
+	KeepDiamonds map[*ssa.BasicBlock]bool           // CollapsePure: value-only diamonds branching at these blocks stay as separate paths
+	MaxVisits    int                                // how often a block may be entered on one path (0 = 2: loops unrolled once)
+	Start        *ssa.BasicBlock                    // region entry (nil = function entry)
+	Stop         map[*ssa.BasicBlock]bool           // region exits
+	KeepCalls    bool                               // record inert (logging) calls as effects too
+	ParamTerms   map[*ssa.Parameter]*Term           // override root parameter terms
+	FreeTerms    map[*ssa.FreeVar]*Term             // override root free variable terms
+	OnBlock      func(b *ssa.BasicBlock, depth int) // coverage hook
 }
 
 type deferred struct {
@@ -201,13 +203,13 @@ func (s *state) clone() *state {
 }
 
 type symExec struct {
-	cfg   SymConfig
-	paths []*Path
-	err   error
-	inert map[*ssa.Function]int // 0 unknown, 1 inert, 2 not inert, 3 in progress
-	pdom  map[*ssa.Function]map[*ssa.BasicBlock]*ssa.BasicBlock
-	colla map[*ssa.BasicBlock]*collapseInfo
-	sums  map[*ssa.Function]*modSummary
+	cfg       SymConfig
+	paths     []*Path
+	err       error
+	inert     map[*ssa.Function]int // 0 unknown, 1 inert, 2 not inert, 3 in progress
+	pdom      map[*ssa.Function]map[*ssa.BasicBlock]*ssa.BasicBlock
+	colla     map[*ssa.BasicBlock]*collapseInfo
+	sums      map[*ssa.Function]*modSummary
 	phiExpand bool
 	phiStack  map[*ssa.Phi]bool
 }
@@ -287,7 +289,11 @@ func (se *symExec) run(st *state) {
 				return
 			}
 			fr.visits[fr.block.Index]++
-			if fr.visits[fr.block.Index] > 2 {
+			maxV := se.cfg.MaxVisits
+			if maxV == 0 {
+				maxV = 2
+			}
+			if fr.visits[fr.block.Index] > maxV {
 				se.finish(st, "cut", nil)
 				return
 			}
@@ -749,6 +755,17 @@ func (se *symExec) eval(st *state, fr *frame, v ssa.Value, pristine bool) *Term 
 	case *ssa.FieldAddr:
 		x := val(in.X)
 		stt := deref(in.X.Type()).Underlying().(*types.Struct)
+		if pristine {
+			// a local that is a one-time copy of a struct read from memory (`defaults := cfg.Defaults`): its fields
+			// are named by the access path of the source, so that guards on the source and uses of the copy meet
+			if a, ok := in.X.(*ssa.Alloc); ok {
+				if w := wholeStore(a); w != nil {
+					if ld, ok := w.(*ssa.UnOp); ok && ld.Op == token.MUL {
+						x = val(ld.X)
+					}
+				}
+			}
+		}
 		return &Term{Op: "fieldaddr", Args: []*Term{x}, Obj: stt.Field(in.Field), Type: in.Type()}
 	case *ssa.Field:
 		x := val(in.X)
@@ -1485,6 +1502,9 @@ func (se *symExec) collapsible(b *ssa.BasicBlock) *collapseInfo {
 				return ci
 			}
 		}
+	}
+	if se.cfg.CollapsePure && se.cfg.KeepDiamonds[b] {
+		return ci
 	}
 	if se.cfg.CollapsePure {
 		// short-circuit conditions (boolean phis at the join) carry path conditions: keep them
